@@ -35,8 +35,8 @@
   (`stroke_vertex_sides_partial`, `stroke_mesh_partial`); §3b side labels at the emission sites;
   §4 counts and shapes (`stroke_polyline_vertex_count`, `stroke_polyline_triangle_count`,
   `closed_subpath_no_caps`, single-point and zero-length sub-paths); §4b interpolated attributes with
-  lyon's cached buffer (`stroke_attributes_consistent`, `stroke_attributes_stale_witness`: finding
-  C05-empty-cap-stale-attributes); §5 non-vacuity examples and kernel-evaluated instances.
+  lyon's cached buffer (`stroke_attributes_consistent`: every vertex, empty caps included, after /repo fix
+  f1c9127a of finding C05-empty-cap-stale-attributes); §5 non-vacuity examples and kernel-evaluated instances.
 
   `VertexOK e store ids s hw` (`Lemmas/StrokeIdxCls.lean`) is what every emitted vertex satisfies:
   its source names an endpoint / an edge between two endpoint ids of the input, its half width is
@@ -529,63 +529,60 @@ theorem attrCache_read_reset (c : AttrCache α) (store : Nat → List α) (s : S
   unfold AttrCache.read
   cases s <;> simp [interpolatedAttributes]
 
-/-- … and so does a vertex read through an invalid cache (e.g. an empty cap after an endpoint vertex) -/
+/-- … and so does a vertex read through an invalid cache -/
 theorem attrCache_read_invalid (buf : List α) (store : Nat → List α) (reset : Bool) (s : Src α) :
     ((⟨false, buf⟩ : AttrCache α).read store reset s).1 = interpolatedAttributes store s := by
   unfold AttrCache.read
   cases s <;> cases reset <;> simp [interpolatedAttributes]
 
-/-- **attributes are consistent outside empty caps**: every vertex of the emission sequence that
-was not emitted by `tessellate_empty_cap` reports exactly the attributes of its source (the
-endpoint's own, or the two endpoints' interpolated at `t`) -/
-theorem stroke_attributes_consistent (store : Nat → List α) (caps : List (Nat × Nat)) :
-    ∀ (verts : List (VData α)) (k : Nat) (c : AttrCache α) (i : Nat) (d : VData α),
-      verts[i]? = some d → inRanges caps (k + i) = false →
-      (attrsSeq store caps verts k c)[i]? = some (interpolatedAttributes store d.src) := by
-  intro verts
-  induction verts with
-  | nil => intro k c i d h; simp at h
-  | cons v vs ih =>
-    intro k c i d h hr
-    cases i with
-    | zero =>
-      simp only [List.getElem?_cons_zero, Option.some.injEq] at h
-      subst h
-      simp only [Nat.add_zero] at hr
-      simp only [attrsSeq, hr, Bool.not_false, List.getElem?_cons_zero, Option.some.injEq]
-      exact attrCache_read_reset c store v.src
-    | succ i =>
-      simp only [List.getElem?_cons_succ] at h
-      simp only [attrsSeq, List.getElem?_cons_succ]
-      exact ih (k + 1) _ i d h (by rw [Nat.add_assoc, Nat.add_comm 1 i]; exact hr)
+/-- a second read of the same source WITHOUT a reset in between (a later vertex of the same emission
+site) returns the same attributes: resetting once per site is the same as resetting per vertex -/
+theorem attrCache_read_again (c : AttrCache α) (store : Nat → List α) (s : Src α) :
+    ((c.read store true s).2.read store false s).1 = interpolatedAttributes store s := by
+  unfold AttrCache.read
+  cases s <;> simp [interpolatedAttributes]
 
-/-- without empty caps the whole sequence is the sources' attributes -/
-theorem stroke_attributes_no_caps (store : Nat → List α) :
-    ∀ (verts : List (VData α)) (k : Nat) (c : AttrCache α),
-      attrsSeq store [] verts k c = verts.map (fun d => interpolatedAttributes store d.src) := by
+/-- **attributes are consistent, for EVERY vertex** (empty caps included, since /repo fix f1c9127a):
+the sequence of attribute lists the vertex constructor reads is, vertex by vertex, the attributes
+of the vertex's source — the endpoint's own, or the two endpoints' interpolated at `t` -/
+theorem stroke_attributes_consistent (store : Nat → List α) :
+    ∀ (verts : List (VData α)) (c : AttrCache α),
+      attrsSeq store verts c = verts.map (fun d => interpolatedAttributes store d.src) := by
   intro verts
   induction verts with
-  | nil => intro k c; rfl
+  | nil => intro c; rfl
   | cons v vs ih =>
-    intro k c
-    simp only [attrsSeq, inRanges, List.any_nil, Bool.not_false, List.map_cons, ih]
+    intro c
+    simp only [attrsSeq, List.map_cons, ih]
     rw [attrCache_read_reset]
 
-/-- **the defect, on the model** (finding `C05-empty-cap-stale-attributes`): an empty-cap vertex with
-source `Endpoint 5` that follows a vertex with an `Edge` source reports that edge vertex's
-interpolated attributes (here `[3/2]`, halfway between `[1]` and `[2]`), not endpoint 5's `[7]` -/
-theorem stroke_attributes_stale_witness :
-    let store : Nat → List ℚ := fun id => if id = 3 then [1] else if id = 4 then [2] else [7]
-    let edgeVertex : VData ℚ := ⟨⟨0, 0⟩, 1, ⟨0, 1⟩, 0, .positive, .edge 3 4 (1 / 2)⟩
-    let capVertex : VData ℚ := ⟨⟨9, 9⟩, 1, ⟨1, 1⟩, 0, .negative, .endpoint 5⟩
-    attrsSeq store [(1, 2)] [edgeVertex, capVertex] 0 ⟨false, []⟩ = [[3 / 2], [3 / 2]]
-    ∧ interpolatedAttributes store capVertex.src = [7] := by
-  refine ⟨?_, ?_⟩
-  · simp [attrsSeq, AttrCache.read, inRanges, lerpAttributes, geom]
-    norm_num
-  · simp [interpolatedAttributes]
+/-- the same, vertex by vertex -/
+theorem stroke_attributes_consistent_get (store : Nat → List α) (verts : List (VData α)) (c : AttrCache α)
+    (i : Nat) (d : VData α) (h : verts[i]? = some d) :
+    (attrsSeq store verts c)[i]? = some (interpolatedAttributes store d.src) := by
+  rw [stroke_attributes_consistent, List.getElem?_map, h]; rfl
+
+/- The former defect (finding `C05-empty-cap-stale-attributes`, fixed by /repo commit f1c9127a; this
+   was the theorem `stroke_attributes_stale_witness` while the finding was open): before the fix
+   `tessellate_empty_cap` did not reset the cache, i.e. its vertices were read with `reset = false`.
+   With `store 3 = [1]`, `store 4 = [2]`, `store 5 = [7]`, an edge vertex `Edge{3,4,t=1/2}` followed by
+   an empty-cap vertex with source `Endpoint 5`:
+     `(⟨false, []⟩.read store true (.edge 3 4 (1/2)))       = ([3/2], ⟨true, [3/2]⟩)`
+     `(⟨true, [3/2]⟩.read store false (.endpoint 5)).1      = [3/2]`   -- stale, not `[7]`
+   On lyon: thorough tier, seed 20260929, case 946223 (endpoint 5 reported 0.7478 instead of 1.7198). -/
 
 end Attrs
+
+section AttrsRun
+variable {α : Type} [Scalar α] [Transc α] [Asin α] [FlatConst α]
+
+/-- for the whole run: what the vertex constructor reads is the sources' attributes -/
+theorem stroke_run_attributes (e : Env α) (store : Nat → List α) (evs : List (IdEv α)) :
+    runAttrs e store evs
+      = (runEvents e store evs).st.out.verts.map (fun d => interpolatedAttributes store d.src) :=
+  stroke_attributes_consistent store _ _
+
+end AttrsRun
 
 /-! ## §5 the hypotheses are satisfiable; concrete instances -/
 
